@@ -100,6 +100,12 @@ def main():
         help="also run every check on a copy in which every function-local variable is renamed (selftest/alpha.py; the "
         "suite passes on that copy): recognisers and known-finding keys must not depend on what locals are called",
     )
+    ap.add_argument(
+        "--fstring",
+        action="store_true",
+        help="also run every check on a copy in which every constant-template .format() call is rewritten as an f-string "
+        "(selftest/fstring.py; the suite passes on that copy): template recognisers must not depend on the spelling",
+    )
     a = ap.parse_args()
     from mutants import MUTANTS
 
@@ -152,6 +158,22 @@ def main():
                     r = subprocess.run([os.path.join(VERIF, "check"), p, "--root", os.path.join(tmp, "r"), "--evidence-dir", os.path.join(tmp, "ev"), "--quiet"], capture_output=True, text=True)
                     if r.returncode != 0:
                         print("ALPHA-RENAMED-TREE {} exit {} (wanted 0): {}".format(p, r.returncode, "\n".join(l for l in (r.stdout + r.stderr).splitlines() if not l.startswith("KNOWN"))[-400:]))
+                        bad += 1
+        finally:
+            shutil.rmtree(tmp, ignore_errors=True)
+    if a.fstring:
+        tmp = tempfile.mkdtemp(prefix="cddfstr_")
+        try:
+            r = subprocess.run([sys.executable, os.path.join(HERE, "fstring.py"), a.repo, os.path.join(tmp, "r")], capture_output=True, text=True)
+            if r.returncode != 0 or "SYNTAX" in r.stdout:
+                print("FSTRING-REWRITE failed: {}".format((r.stdout + r.stderr)[-300:]))
+                bad += 1
+            else:
+                os.makedirs(os.path.join(tmp, "ev"))
+                for p in sorted({m["prop"] for m in muts}):
+                    r = subprocess.run([os.path.join(VERIF, "check"), p, "--root", os.path.join(tmp, "r"), "--evidence-dir", os.path.join(tmp, "ev"), "--quiet"], capture_output=True, text=True)
+                    if r.returncode != 0:
+                        print("FSTRING-TREE {} exit {} (wanted 0): {}".format(p, r.returncode, "\n".join(l for l in (r.stdout + r.stderr).splitlines() if not l.startswith("KNOWN"))[-400:]))
                         bad += 1
         finally:
             shutil.rmtree(tmp, ignore_errors=True)
